@@ -124,6 +124,13 @@ func (vfs *MemFS) searchNode(path string, slMode slMode) (
 
 		case *symlinkNode:
 			// Symlinks mode is always 0o777, no need to check permissions.
+			// A symbolic link that is not followed does not count.
+			if pi.IsLast() && slMode == slmLstat {
+				err = vfs.err.FileExists
+
+				return
+			}
+
 			slCount++
 			if slCount > slCountMax {
 				err = vfs.err.TooManySymlinks
@@ -132,11 +139,6 @@ func (vfs *MemFS) searchNode(path string, slMode slMode) (
 			}
 
 			if pi.IsLast() {
-				if slMode == slmLstat {
-					err = vfs.err.FileExists
-
-					return
-				}
 
 				// if the last part of the path is a symbolic link
 				// Stat should return the initial path of the symbolic link
